@@ -121,6 +121,19 @@ PARAM_NAME_LINT_PROGRAMS = [
 ]
 
 
+# KNOWN FINDING (known_findings.json): `Self` inside a field type of a struct that derives an operator - the field type is pasted
+# into the impls for `&X`, where `Self` means the reference
+SELF_FIELD_OPERATOR_PROGRAMS = [
+    ('#[derive_ex(Add)] struct X(u8, W<Self>);   [W<A>: Add in all four forms]',
+     'pub struct W<A>(pub u8, pub PhantomData<fn() -> A>);\n'
+     'impl<A> ::core::ops::Add for W<A> { type Output = W<A>; fn add(self, r: W<A>) -> W<A> { W(self.0 + r.0, PhantomData) } }\n'
+     "impl<'a, A> ::core::ops::Add<&'a W<A>> for W<A> { type Output = W<A>; fn add(self, r: &W<A>) -> W<A> { W(self.0 + r.0, PhantomData) } }\n"
+     "impl<'a, A> ::core::ops::Add<W<A>> for &'a W<A> { type Output = W<A>; fn add(self, r: W<A>) -> W<A> { W(self.0 + r.0, PhantomData) } }\n"
+     "impl<'a, 'b, A> ::core::ops::Add<&'b W<A>> for &'a W<A> { type Output = W<A>; fn add(self, r: &W<A>) -> W<A> { W(self.0 + r.0, PhantomData) } }\n"
+     '#[::derive_ex::derive_ex(Add)]\npub struct X(pub u8, pub W<Self>);\npub fn run() {}'),
+]
+
+
 class C20(Prop):
     pid = 'C20'
     tag = 'all generated impls'
@@ -348,7 +361,7 @@ class C20(Prop):
         # operators derived from an `impl` whose operand is a reference with an explicit, load-bearing lifetime
         for k, (text, src) in enumerate(IMPL_PROGRAMS):
             mods.append(l2.Module(4 * 10 ** 6 + k, src, _Lit(text)))
-        for k, (text, src) in enumerate(RAW_PARAM_PROGRAMS + PARAM_NAME_LINT_PROGRAMS + SELF_WITH_EQ_PROGRAMS):
+        for k, (text, src) in enumerate(RAW_PARAM_PROGRAMS + PARAM_NAME_LINT_PROGRAMS + SELF_WITH_EQ_PROGRAMS + SELF_FIELD_OPERATOR_PROGRAMS):
             mods.append(l2.Module(5 * 10 ** 6 + k, src, _Lit(text)))
         nb = max(1, min(R.NPROC, len(mods) // 40 + 1))
         batches = [('c20_%d' % k, mods[k::nb]) for k in range(nb)]
